@@ -1,7 +1,7 @@
 ------------------------------ MODULE Session ------------------------------
 (* A complete reconciliation session between two replicas A (initiator) and B,
    message by message, followed by an immediate second session (C01).          *)
-EXTENDS Ranger
+EXTENDS Ranger, FiniteSetsExt
 
 CONSTANTS Universe,    \* entries initial stores are drawn from
           MaxInit,     \* max entries offered to each side initially
@@ -14,11 +14,13 @@ vars == <<A, B, A0, B0, cfg, wire, turn, rounds, sentA, recvA, sentB, recvB, dbg
 
 Now == 1000
 Subsets(U, n) == {X \in SUBSET U : Cardinality(X) <= n}
+\* spreads the initial pairs over the shards (any deterministic function of the pair would do)
+Weight(X) == FoldSet(LAMBDA e, acc : acc + e.ts + 2 * e.a + 5 * Len(e.k) + (IF e.h = 0 THEN 1 ELSE 0), Cardinality(X), X)
 P(S, m) == Process(S, m, cfg, Now, SetFpEq, SetFpEmpty)
 
 Init ==
   /\ \E X \in Subsets(Universe, MaxInit), Y \in Subsets(Universe, MaxInit) :
-        /\ (Cardinality(X) + 2 * Cardinality(Y)) % Shards = Shard
+        /\ (Weight(X) + 3 * Weight(Y)) % Shards = Shard
         /\ A = Kept(X) /\ B = Kept(Y)
   /\ A0 = A /\ B0 = B
   /\ cfg \in Configs
